@@ -17,6 +17,7 @@ import (
 	"fmt"
 	"os"
 	"path/filepath"
+	"regexp"
 	"sort"
 	"strings"
 	"time"
@@ -190,6 +191,7 @@ func LintBatch(mods []Parsed, timeout time.Duration) (out Outcome) {
 
 // Failure is a module (set) on which Lint returned an error / timed out, after bisection.
 type Failure struct {
+	Key     string   `json:"key"`
 	Modules []Module `json:"modules"` // minimal failing subset found (usually one module)
 	Err     string   `json:"err"`
 	Timeout bool     `json:"timeout"`
@@ -248,6 +250,44 @@ func ErrClass(e string) string {
 		return e[:60]
 	}
 	return e
+}
+
+var reEval = regexp.MustCompile(`(/regal/[^: ]+\.rego):\d+: (eval_\w+): ([^\n]{0,80})`)
+
+// FailureKey is the canonical signature of a lint failure: error code + the bundle file of the rule that
+// raised it (no line numbers, no input-dependent text), or the failing phase for Go-side errors.
+func FailureKey(e string) string {
+	if m := reEval.FindStringSubmatch(e); m != nil {
+		msg := m[3]
+		if i := strings.IndexAny(msg, "\"`"); i >= 0 {
+			msg = msg[:i]
+		}
+		return m[2] + " " + m[1] + ": " + strings.TrimSpace(msg)
+	}
+	if strings.Contains(e, "strconv.ParseFloat") && strings.Contains(e, "value out of range") {
+		return "transform: number literal outside float64 range (JSON round trip of the module)"
+	}
+	if strings.Contains(e, "worker made no progress") {
+		return "hang"
+	}
+	if strings.Contains(e, "worker crashed") {
+		if i := strings.Index(e, "panic:"); i >= 0 {
+			l := e[i:]
+			if j := strings.Index(l, "\n"); j >= 0 {
+				l = l[:j]
+			}
+			return clipTo(l, 120)
+		}
+		return "worker crashed"
+	}
+	return ErrClass(e)
+}
+
+func clipTo(s string, n int) string {
+	if len(s) > n {
+		return s[:n]
+	}
+	return s
 }
 
 // MinimiseText deletes lines (chunks, then single lines) of a single failing module while the module still
